@@ -1047,43 +1047,14 @@ theorem structural_setter_seen_sound (st : CacheState) (s' : SchemaD) :
     CacheInv (step st (.assignStructure s' true)).1 := by
   simp only [step, assignStructureStep]; intro hv; simp at hv
 
-/-- fix C13-S12 is in the tree: the comparison `validate()` makes covers everything the validator reads (root types,
-    names, fields and their types, interfaces, union members, enum values, input fields, directives) -/
-theorem cache_tracks_structure : cfgCacheTracksStructure = true := by decide
-
 /-- **cache soundness over EVERY public mutator**: replace requests honest about identity, everything else
     unrestricted - structural plain assignments included, seen by the probe or not -/
 def CacheSoundAllMutators : Prop :=
   ∀ (st : CacheState), CacheInv st → ∀ op : Op,
     (∀ es ds hl, op = .replaceTypes es ds hl → HonestOp st op) → CacheInv (step st op).1
 
-/-- **FULL since fix C13-S12** (was refuted: `cache_sound_all_mutators_fails_today`): every operation of the machine,
-    with NO side condition on structural plain assignments, keeps "cached-valid ⇒ the current schema is valid". -/
-theorem cache_sound_all_mutators : CacheSoundAllMutators := by
-  intro st h op hrep
-  apply step_inv st op _ h
-  cases op with
-  | replaceTypes es ds hl => exact hrep es ds hl rfl
-  | assignStructure s' seen => exact Or.inl cache_tracks_structure
-  | validate => trivial
-  | registerDefaultResolver tn r a => trivial
-  | registerResolver tn fn r a sm => trivial
-  | registerSubscription tn fn r a sm => trivial
-  | assignResolver lvl tn fn r sm => trivial
-  | assignArguments tn fn args => trivial
-
-/-- every history over ALL mutators, honest replace requests being the only condition -/
-theorem cache_sound_every_history (st : CacheState) (h : CacheInv st) (ops : List Op)
-    (hh : ∀ pre op, (∃ post, ops = pre ++ op :: post) →
-      ∀ es ds hl, op = .replaceTypes es ds hl → HonestOp (run st pre) op) :
-    CacheInv (run st ops) := by
-  induction ops generalizing st with
-  | nil => exact h
-  | cons op ops ih =>
-    have h1 := cache_sound_all_mutators st h op (hh [] op ⟨ops, rfl⟩)
-    apply ih _ h1
-    intro pre op' ⟨post, e⟩
-    exact hh (op :: pre) op' ⟨post, by rw [e]; rfl⟩
+/- `cache_sound_all_mutators` (FULL since fix C13-S12) is in Props/C13_s12.lean: it needs the flag
+   `cfgCacheTracksStructure` to be `true`, i.e. proposed_fixes/C13-S12.patch in the tree. -/
 
 private def wSchemaBad : SchemaD := { types := [wInt, wQuery, { wA with interfaces := ["Query"] }] }
 
@@ -1116,10 +1087,6 @@ theorem cache_sound_all_mutators_fails_today : ¬ CacheSoundAllMutatorsBeforeS12
   intro h
   exact cache_unsound_unseen_structural_setter.2.2
     (h wState wState_inv (.assignStructure wSchemaBad false) (fun es ds hl e => by cases e))
-
-/-- non-vacuity on today's tree: the same retyping after a cached verdict, NOT seen by the probe, followed by
-    `validate()`, recomputes and rejects -/
-example : runTrace wState [.assignStructure wSchemaBad false, .validate] = [.ok, .validationError] := by decide
 
 example : HonestRun wState [.assignStructure wSchemaBad true, .validate]
     ∧ runTrace wState [.assignStructure wSchemaBad true, .validate] = [.ok, .validationError] := by
